@@ -357,6 +357,17 @@ def _suite_job(job):
         return {"suite": suite, "shard": shard, "error": traceback.format_exc()}
 
 
+def raised_through_repo(e):
+    """does the traceback of `e` contain a frame of the code under test (a file under REPO)?"""
+    root = os.path.realpath(REPO) + os.sep
+    tb = e.__traceback__
+    while tb is not None:
+        if os.path.realpath(tb.tb_frame.f_code.co_filename).startswith(root):
+            return True
+        tb = tb.tb_next
+    return False
+
+
 def _oracle_job(job):
     pid, modname, site, tier, seed, shard, nshards, boost = job
     try:
@@ -372,7 +383,15 @@ def _oracle_job(job):
             distinct.add(hashlib.blake2b(json.dumps(proto.jsonable(inp), sort_keys=True).encode(), digest_size=8).digest())
             with warnings.catch_warnings():
                 warnings.simplefilter("ignore")
-                what = chk(inp)
+                try:
+                    what = chk(inp)
+                except Exception as e:  # noqa: BLE001
+                    # an exception that travelled through the code under test (a frame under REPO) and escaped the
+                    # checker is an observation about the code on this input, not a harness failure
+                    if not raised_through_repo(e):
+                        raise
+                    what = "the code under test raised %s: %s (escaped the property checker)" % (
+                        type(e).__name__, str(e)[:200])
             if what is not None:
                 if len(failures) < 50:
                     failures.append({"site": site, "input": proto.jsonable(inp), "what": what})
